@@ -74,6 +74,9 @@ struct CtlState {
   /// yield points each worker has arrived at in the current event
   arrivals: [usize; 2],
   log: Vec<Item>,
+  /// case field `pyield`: a probe callback on a worker thread is itself a yield point (the other thread
+  /// may run while this one is INSIDE the subscriber's callback)
+  pyield: bool,
 }
 
 struct Ctl {
@@ -154,7 +157,14 @@ fn on_item(it: Item) {
       let hs = held_by(&g, *me);
       g.tokens[*me].push(format!("c0[{}]", hs));
     }
+    let is_cb = matches!(it, Item::N(_) | Item::T(..));
     g.log.push(it);
+    let py = g.pyield && is_cb && *me != MAIN;
+    drop(g);
+    if py {
+      // pseudo cell 1 (never a real address): always free, so the thread just parks and is resumed later
+      on_lock(ctl, *me, 1, |_| true);
+    }
   })
 }
 
@@ -399,6 +409,7 @@ pub fn run(case: &Case, out: &mut Out) {
       turn: None,
       arrivals: [0, 0],
       log: vec![],
+      pyield: case.has("pyield"),
     }),
     cv: Condvar::new(),
   });
